@@ -394,9 +394,9 @@ def TreeInv (root : Node) : Prop :=
     ((k = .list ∨ k = .array) → ∀ i, i < kids.length →
       ((natStr i).length ≤ intMaxDigits ∨ intMaxDigits = 0))
 
-/-- no Dict child on the way is an UNNAMED field (stored under the key `None`).  The general theorems
-    below are proved for such positions; unnamed fields (05c4adc) are covered at the first level by
-    `find_fq_unnamed` and otherwise by the runner's re-check of the iff on every generated tree. -/
+/-- no Dict child on the way is an UNNAMED field (stored under the key `None`).  Only the `*_named`
+    corollaries in `Proofs/C13Empty.lean` still mention it: the general theorems there
+    (`find_fq_addressable`, `find_fq_iff`, `C13_key_mismatch_fails`) hold without it. -/
 def namedFrom : Node → Pos → Bool
   | _, [] => true
   | .mk k _ _ kids, i :: p =>
@@ -440,13 +440,6 @@ theorem pathOK_of_addressableFrom (root : Node) (hinv : TreeInv root) : ∀ (pos
           · exact absurd h.1 hkn
         simp only [stepOK, Bool.and_eq_true, beq_iff_eq, Bool.or_eq_true, Bool.not_eq_true']
         exact ⟨⟨hname.1 ▸ h2 rfl i c hk, hname.2.1⟩, hname.2.2⟩
-
-/-- **spec B's restriction suffices**: on a tree with the library's invariants every
-    `addressable` element is found, alone, by its `fq_name()` from every start -/
-theorem find_fq_addressable (root : Node) (hinv : TreeInv root) (start pos : Pos) (strict : Bool)
-    (hnm : namedFrom root pos = true) (ha : addressable root pos = true) :
-    find root start (fqName root pos) false strict = .many [pos] :=
-  find_fq root start pos strict (pathOK_of_addressableFrom root hinv pos root [] rfl hnm ha)
 
 /-! ### the converse: on spellable positions `addressable` is necessary too -/
 
@@ -625,40 +618,6 @@ theorem spellOK_of_spellableFrom (root : Node) (hinv : TreeInv root) : ∀ (pos 
         · simpa [stepSpell] using h
         · exact absurd h.1 hkn
 
-/-- **`addressable` is exact on spellable positions**: on a tree with the library's invariants, for a
-    position whose Dict names can be spelled (non-empty, no backslash at the end of a non-final one),
-    `find(fq_name(pos))` from any start returns exactly `[pos]` IF AND ONLY IF the position is
-    `addressable` — i.e. iff every Dict child on the way is stored under its own name. -/
-theorem find_fq_iff (root : Node) (hinv : TreeInv root) (start pos : Pos) (strict : Bool)
-    (hnm : namedFrom root pos = true) (hs : spellable root pos = true) :
-    find root start (fqName root pos) false strict = .many [pos] ↔ addressable root pos = true := by
-  have hsp := spellOK_of_spellableFrom root hinv pos root [] rfl hnm hs
-  constructor
-  · intro hf
-    exact addressableFrom_of_pathOK pos root (pathOK_of_find_fq root start pos strict hsp hf)
-  · exact find_fq_addressable root hinv start pos strict hnm
-
-/-- the general form of KF-C13-c: EVERY element on a spellable position below a Dict child that is
-    stored under a key different from its name (anywhere on the way) breaks the law, from every start -/
-theorem C13_key_mismatch_fails (root : Node) (hinv : TreeInv root) (start pos : Pos)
-    (hnm : namedFrom root pos = true) (hs : spellable root pos = true) (hna : addressable root pos = false) :
-    isInverseAt root start pos = false := by
-  unfold isInverseAt
-  have h : ¬ find root start (fqName root pos) false true = .many [pos] := by
-    intro hf
-    have := (find_fq_iff root hinv start pos true hnm hs).1 hf
-    rw [hna] at this; cases this
-  cases hf : find root start (fqName root pos) false true with
-  | many l =>
-    match l with
-    | [] => rfl
-    | [p] =>
-      simp only [beq_eq_false_iff_ne, ne_eq]
-      intro e; subst e; exact h hf
-    | _ :: _ :: _ => rfl
-  | one _ => rfl
-  | err _ => rfl
-
 /-! ### the unrestricted law and why it fails -/
 
 /-- the property as stated: every tree the library can build, every element, every start -/
@@ -828,16 +787,6 @@ theorem C13_full_fails_key : ¬ Inverse witnessKey := by
   revert hinv
   decide
 
-/-! ### the general theorems instantiated -/
-
-/-- KF-C13-c as an INSTANCE of the general theorem (no evaluation of the tokenizer needed): the
-    witness position is spellable and not addressable -/
-theorem C13_full_fails_key_general : ¬ Inverse witnessKey := by
-  intro h
-  have h1 := h.2 [] [0] rfl rfl
-  rw [C13_key_mismatch_fails witnessKey witnessKey_inv [] [0] (by decide) (by decide) (by decide)] at h1
-  cases h1
-
 /-- a larger tree of the same class: Dict r { a: Dict { List l [ x stored under key "k" but named "n" ] } };
     the mismatch sits two levels above the subject, seen from a start below the root -/
 def witnessKeyDeep : Node :=
@@ -884,15 +833,5 @@ theorem witnessKeyDeep_inv : TreeInv witnessKeyDeep := by
   | 0 :: 0 :: 1 :: _ :: _, h => simp [witnessKeyDeep, Node.get?] at h
   | 0 :: (_ + 1) :: _, h => simp [witnessKeyDeep, Node.get?] at h
   | (_ + 1) :: _, h => simp [witnessKeyDeep, Node.get?] at h
-
-/-- non-vacuity of `find_fq_iff` in both directions on one tree: the root is spellable and addressable
-    (the law holds), the list member `[0,0,1]` is spellable and NOT addressable (the law fails, from the
-    start `[0]`) -/
-example : (find witnessKeyDeep [0] (fqName witnessKeyDeep []) false true = .many [[]]) ∧
-    ¬ (find witnessKeyDeep [0] (fqName witnessKeyDeep [0, 0, 1]) false true = .many [[0, 0, 1]]) :=
-  ⟨(find_fq_iff witnessKeyDeep witnessKeyDeep_inv [0] [] true (by decide) (by decide)).2 (by decide),
-   fun h => by
-     have := (find_fq_iff witnessKeyDeep witnessKeyDeep_inv [0] [0, 0, 1] true (by decide) (by decide)).1 h
-     revert this; decide⟩
 
 end Flatland.C13.Proofs
